@@ -68,7 +68,42 @@ def _r1(ctx):
                   "the uniform split is not `%s[%s.index(%s)] += %s / len(%s)` as the only update (updates: %s)" % (
                       res, plist, p, cyc, ports, [U(u) for u in upd]), f.qname, "uniform share")
     rets = [r for r in ast.walk(f.node) if isinstance(r, ast.Return)]
-    ctx.check(len(rets) == 1 and U(rets[0].value) == res, "R1", "the vector is returned unchanged", f.where(), "return changed", f.qname, "return")
+    def _uncopied(e):
+        while True:
+            if isinstance(e, ast.Call) and isinstance(e.func, ast.Name) and e.func.id in ("list", "tuple") and len(e.args) == 1 and not e.keywords:
+                e = e.args[0]
+            elif isinstance(e, ast.Call) and isinstance(e.func, ast.Attribute) and e.func.attr == "copy" and not e.args:
+                e = e.func.value
+            elif isinstance(e, ast.Subscript) and isinstance(e.slice, ast.Slice) and e.slice.lower is None and e.slice.upper is None and e.slice.step is None:
+                e = e.value
+            else:
+                return e
+    ret_ok, ret_rec = False, True
+    if len(rets) == 1 and rets[0].value is not None:
+        rv = _uncopied(rets[0].value)
+        if U(rv) == res:
+            ret_ok = True
+        elif isinstance(rv, ast.Name):
+            # a copy of the vector kept in a memo table of the model and handed out as a fresh list
+            try:
+                ds_ = C.flow_of(f).reaching(rets[0], rv.id)
+            except Exception:
+                ds_ = []
+            kinds = []
+            for d_ in ds_:
+                v_ = _uncopied(d_.value) if getattr(d_, "value", None) is not None else None
+                if v_ is not None and U(v_) == res:
+                    kinds.append("vec")
+                elif v_ is not None and ((isinstance(v_, ast.Call) and isinstance(v_.func, ast.Attribute) and v_.func.attr == "get") or isinstance(v_, ast.Subscript)) \
+                        and U(rets[0].value) != rv.id:
+                    kinds.append("memo")        # (handed out as a copy: `return list(cached)`)
+                else:
+                    kinds.append("?")
+            ret_ok = bool(kinds) and "vec" in kinds and "?" not in kinds
+            ret_rec = ret_ok or not kinds or "?" not in kinds
+            if not ret_ok and "?" in kinds:
+                ret_rec = False
+    ctx.judge(ret_ok, ret_rec, "R1", "the vector is returned unchanged", f.where(), "return changed", f.qname, "return")
     sel = [(n, b) for n, b in pm.find("M_u = M_pp[M_opt]", f.node) if isinstance(b["M_opt"], ast.Name)]
     if not sel:
         # the selection as one branch of a conditional expression: u = pp[opt] if isinstance(pp, dict) else pp
@@ -304,8 +339,22 @@ def _r3(ctx, P):
     ctx.check(ok, "R3", "port_sums and instr_ports are views of the kernel totals / the instruction's pressure at `indices`", f.where(),
               "port_sums / instr_ports are not both itemgetter(*indices) views", f.qname, "parallel views")
     dif = [a for a in ast.walk(P["uop_loop"]) if isinstance(a, ast.Assign) and U(a.targets[0]) == "differences"]
-    ctx.check(bool(dif) and pm.match("[cycles / len(ports) for M_x in M_s]", dif[0].value) is not None and U(
-        pm.match("[cycles / len(ports) for M_x in M_s]", dif[0].value)["M_s"]) in ("ports", "indices"), "R3",
+    def _cap_ok(v):
+        # `[] if len(ports) == 0 else X` (an empty port list has no share to cap): X decides
+        if isinstance(v, ast.IfExp):
+            arms = [a for a in (v.body, v.orelse) if not (isinstance(a, ast.List) and not a.elts)]
+            if len(arms) == 1 and "len(ports)" in U(v.test) or len(arms) == 1 and U(v.test) in ("ports", "not ports"):
+                return _cap_ok(arms[0])
+            return False
+        m1 = pm.match("[cycles / len(ports) for M_x in M_s]", v)
+        if m1 is not None:
+            return U(m1["M_s"]) in ("ports", "indices")
+        for pat in ("[cycles / len(ports)] * len(M_s)", "len(M_s) * [cycles / len(ports)]"):
+            m2 = pm.match(pat, v)
+            if m2 is not None:
+                return U(m2["M_s"]) in ("ports", "indices")
+        return False
+    ctx.check(bool(dif) and _cap_ok(dif[0].value), "R3",
               "cap per port = the uniform share cycles / len(ports)", f.where(dif[0]) if dif else f.where(),
               "the per-port cap is %s" % (U(dif[0].value) if dif else None), f.qname, "cap definition")
     refresh = [a for a in sl.body if isinstance(a, ast.Assign) and U(a.targets[0]) == "port_sums"]
